@@ -69,7 +69,7 @@ def transfers(path):
                 name = frame['callee'].fn.name
                 if name in ('__remove_resources__', '__insert_resources__') and \
                         frame.depth == _outer_depth(stack):
-                    recv = _call_receiver_text(frame.node)
+                    recv = _call_receiver_text(frame.node, path, frame)
                     side = 'parent' if recv == 'self._resources' else (
                         'own' if recv == 'self' else recv)
                     kind = 'debit' if name == '__remove_resources__' else 'credit'
@@ -80,7 +80,7 @@ def transfers(path):
             arg = event.node.args[0]
             if isinstance(arg, ast.Call) and isinstance(arg.func, ast.Attribute) and \
                     arg.func.attr in ('__remove_resources__', '__insert_resources__'):
-                recv = ast.unparse(arg.func.value)
+                recv = rules.value_text(path, index, arg.func.value)
                 side = 'parent' if recv == 'self._resources' else (
                     'own' if recv == 'self' else recv)
                 kind = 'debit' if arg.func.attr == '__remove_resources__' else 'credit'
@@ -96,9 +96,12 @@ def _outer_depth(stack):
     return -1
 
 
-def _call_receiver_text(node):
+def _call_receiver_text(node, path=None, event=None):
+    """the object a method is called on, locals and records replaced by what they hold"""
     call = node.value if isinstance(node, ast.Await) else node
     if isinstance(call, ast.Call) and isinstance(call.func, ast.Attribute):
+        if path is not None and event is not None:
+            return rules.value_text(path, rules.event_index(path, event), call.func.value)
         return ast.unparse(call.func.value)
     return None
 
@@ -214,6 +217,25 @@ def run(check, an: Analysis):
         recv_text = ast.unparse(node.func.value) if isinstance(node.func, ast.Attribute) \
             else '?'
         amount = ast.unparse(node.args[0]) if node.args else '?'
+        # (named by what the operands hold where the call is reached: a local or a record
+        # field standing for `self._resources` / `self._debits` reads the same)
+        fowner = an.p.enclosing_self_class(fn)
+        for which0 in (['none'] if fn.name == '__aexit__' else [None]):
+            for path0 in an.paths(Callee(fn, fowner.qn if fowner else None), which0):
+                hits = [i for i, e in enumerate(path0.events)
+                        if e.node is node and e.kind == 'call']
+                if hits and isinstance(node.func, ast.Attribute) and node.args:
+                    for raw, which_text in ((node.func.value, 'recv'), (node.args[0], 'amt')):
+                        held = rules.value_expr(path0, hits[0], raw)
+                        if isinstance(held, ast.Name) or rules._dotted_text(held):
+                            if which_text == 'recv':
+                                recv_text = ast.unparse(held)
+                            else:
+                                amount = ast.unparse(held)
+                    break
+            else:
+                continue
+            break
         construct = '%s:debit(%s, %s)' % (short(rules.public_name(an, fn)), recv_text, amount)
         owner = an.p.enclosing_self_class(fn)
         callee = Callee(fn, owner.qn if owner else None)
